@@ -466,8 +466,9 @@ def reevaluation(prog, mn, ys, cs):
                 rows = Arr('this.' + cs)
             n += 1
             a_el, r_el = arg[0].read((k,)), rows.read((idx, k))
-            if any('@loop' in str(x_) or '@entry' in str(x_) or '[' in str(x_) for x_ in (a_el, r_el)):
-                return None
+            import re as _re
+            if any('@loop' in str(x_) or '@entry' in str(x_) or '[' in str(x_) or _re.search(r'@(?!in\b)', str(x_)) for x_ in (a_el, r_el)):
+                return None       # an array whose content is unknown here (written by something the summary does not model)
             if not is_zero(sp.simplify(a_el - r_el)):
                 bad.append('line %s: the stored value y[%s] is the objective at %s (element k: %s) but row %s of the simplex is %s there'
                            % (lp['l'], idx, arg[0].name, str(a_el)[:80], idx, str(r_el)[:100]))
